@@ -323,7 +323,7 @@ def to_numpy(array, allow_missing=True):
         out = to_numpy(array.content, allow_missing=allow_missing)
         head, tail = out.shape[0], out.shape[1:]
         if array.size == 0:
-            shape = (0, 0) + tail
+            shape = (len(array), 0) + tail
         else:
             shape = (head // array.size, array.size) + tail
         return out[: shape[0] * array.size].reshape(shape)
